@@ -170,6 +170,17 @@ CHECKS.update({
          "last written value."),
    note="Trusted: TLC, the level hook (3 indices per tick, recorded inside update_mixer). Not decided: numeric accuracy of the resampling/filter chain."),
 })
+CHECKS.update({
+ "C16": dict(
+   category="model_checking", design_ref="4 (C16)", technique="TLC exhaustive host-loop model + TLC validation of per-frame machine digests across host drivings",
+   text=("Emu.tla models emulate_frames over an abstract deterministic machine; MC_Emu explores every sequence of FrameCount(n) / Max (any stopwatch verdicts) "
+         "calls with breakpoints on any subset of instruction numbers and checks that the machine is a function of the instructions executed alone and "
+         "that every completed frame is handed to the host or still pending (also when it ends at a breakpoint). The real emulator runs the same scenario "
+         "(ROM boot, real-time tape, key script) under 13 drivings - repeated, random FrameCount partitions, Max mode, breakpoint stop/resume incl. "
+         "single-stepping, sound off, audio never drained, four asset implementations - and EmuTrace requires the digest of registers, clock, all RAM, "
+         "both frame buffers, border and paging (and the audio stream where comparable) to depend on (scenario, frame) only."),
+   note="Trusted: TLC, a 64-bit FNV digest (collisions ignored), the RAM-bank hook. Two to six scenarios per shard."),
+})
 NOT_YET = {}
 
 HOOK_COMMITS = ["71990aa"]
